@@ -54,12 +54,25 @@ type Engine interface {
 	Run(t *testing.T, job *Job, rng *RNG, idx int64, c *Case) *Outcome
 }
 
+// Shrinker is implemented by engines that know transformations of a case
+// which plain deletion of actions cannot reach (removing an attempt together
+// with everything that refers to it and renumbering the rest, shortening
+// payloads).  Each candidate is kept only if the same invariant still fails.
+type Shrinker interface {
+	Shrink(c *Case) []*Case
+}
+
 // Heartbeat is bumped by engines at every macro-step; the process-level
 // watchdog (real time, outside any bubble) exits 2 when it stops moving.
 var Heartbeat atomic.Int64
 
-// WatchdogQuiet is how long the heartbeat may stand still.
-var WatchdogQuiet = 60 * time.Second
+// WatchdogQuiet is how long the heartbeat may stand still before the engine's
+// Stuck function (if any) is asked for a verdict; GiveUpAfter is when a worker
+// that still makes no progress exits 2.
+var (
+	WatchdogQuiet = 60 * time.Second
+	GiveUpAfter   = 90 * time.Second
+)
 
 // Stuck, if set, is called by the watchdog when the heartbeat has stood still:
 // an engine whose code under test can deadlock returns the finding (with the
@@ -92,12 +105,18 @@ func startWatchdog(j *Job, res *Result) {
 					fatal(j, res, f, c, tr)
 				}
 			}
+			// not a proven deadlock: a loaded machine may just be slow; give up
+			// (exit 2, never a verdict) only after a long time
+			if time.Since(lastMove) < GiveUpAfter {
+				time.Sleep(WatchdogQuiet)
+				continue
+			}
 			var sb strings.Builder
 			for _, g := range dump {
 				sb.WriteString(g.Stack)
 				sb.WriteString("\n\n")
 			}
-			res.Error = "watchdog: no progress for " + WatchdogQuiet.String() + "\n"
+			res.Error = "watchdog: no progress for " + time.Since(lastMove).Round(time.Second).String() + "\n"
 			if Describe != nil {
 				res.Error += Describe() + "\n"
 			}
@@ -308,9 +327,41 @@ func minimise(t *testing.T, e Engine, j *Job, c *Case, f Found) (*Case, Found, [
 		return c, f, nil
 	}
 	acts := Minimise(c.Actions, fails, 600)
+	cur := &Case{Config: c.Config, Actions: acts}
+	if sh, ok := e.(Shrinker); ok {
+		for round := 0; round < 40; round++ {
+			improved := false
+			for _, cand := range sh.Shrink(cur) {
+				o := e.Run(t, j, NewRNG(0), -1, cand)
+				Heartbeat.Add(1)
+				if g, ok := match(o, f); ok {
+					cur, best, bestTrace, improved = cand, g, o.Trace, true
+					break
+				}
+			}
+			if !improved {
+				break
+			}
+			// deletion may have become possible again
+			cfg := cur.Config
+			fails2 := func(acts []json.RawMessage) bool {
+				o := e.Run(t, j, NewRNG(0), -1, &Case{Config: cfg, Actions: acts})
+				Heartbeat.Add(1)
+				g, ok := match(o, f)
+				if ok {
+					best, bestTrace = g, o.Trace
+				}
+				return ok
+			}
+			cur = &Case{Config: cfg, Actions: Minimise(cur.Actions, fails2, 200)}
+		}
+	}
 	// leave best/bestTrace describing the final candidate
-	fails(acts)
-	return &Case{Config: c.Config, Actions: acts}, best, bestTrace
+	final := e.Run(t, j, NewRNG(0), -1, cur)
+	if g, ok := match(final, f); ok {
+		best, bestTrace = g, final.Trace
+	}
+	return cur, best, bestTrace
 }
 
 func replay(t *testing.T, e Engine, j *Job, res *Result) {
